@@ -197,11 +197,31 @@ def content_mask(img, level, lvl_tol=2.0):
 
 
 def execute(plan, choices=None):
+    from worlds import simexec
+
+    with simexec.installed(seed=plan.get("seed", 0), choices=choices) as tx:
+        res = _execute(plan, choices)
+    return _with_threads(res, tx)
+
+
+def _with_threads(res, tx):
+    """Fold what the simulated thread pool saw into the run's result (inert unless the code under test used a pool)."""
+    res["choices"] = tx.choices.log
+    res["probes"]["thread_pool_tasks_scheduled"] = tx.stats["tasks_submitted"]
+    res["steps"] = res.get("steps", 0) + tx.stats["scheduler_steps"]
+    if tx.used:
+        res["digest"] = hashlib.blake2b((res["digest"] + repr(tx.choices.log)).encode(), digest_size=16).hexdigest()
+    if tx.failure and tx.failure["kind"] != "harness" and not res["violations"]:
+        res["violations"].append({"kind": tx.failure["kind"], "sig": tx.failure["kind"] + ":thread-pool", "detail": tx.failure["detail"]})
+    return res
+
+
+def _execute(plan, choices=None):
     violations = []
     trace = []
     probes = {"keypoints_decoded": 0, "keypoints_skipped_in_padding": 0, "worst_err_over_tol_x1000_max": 0,
               "size_rounding_nonzero": 0, "padding_checked": 0, "crop_near_border": 0, "affine_applied": 0,
-              "intensity_identity_checked": 0, "dataset_aug_reads": 0}
+              "intensity_identity_checked": 0, "dataset_aug_reads": 0, "crop_size_helper_called_before_dataset": 0}
 
     def V(kind, where, detail):
         violations.append({"kind": kind, "sig": f"{kind}:{where}", "detail": detail})
@@ -214,6 +234,14 @@ def execute(plan, choices=None):
             if not bool(torch.isfinite(pts_orig[k]).all()):
                 continue
             if not bool(valid[k]):
+                # padding is fine; the content of ANOTHER frame (a different constant level in channel 2) is not
+                x_, y_ = float(pts_out[k, 0]), float(pts_out[k, 1])
+                if x_ == x_ and 0 <= math.floor(x_) and math.floor(x_) + 1 <= img.shape[-1] - 1 and 0 <= math.floor(y_) and math.floor(y_) + 1 <= img.shape[-2] - 1:
+                    nb = img[2, math.floor(y_):math.floor(y_) + 2, math.floor(x_):math.floor(x_) + 2].double() * 255.0
+                    if float(nb.min()) > 30.0 and float((nb - nb.mean()).abs().max()) < 1.0 and abs(float(nb.mean()) - level) > 4.0:
+                        V("content_from_wrong_frame", where,
+                          f"{where}: the image around output keypoint {pts_out[k].tolist()} is content of another frame (frame level {float(nb.mean()):.0f}, this sample's frame has level {level}) {extra}")
+                        return False
                 probes["keypoints_skipped_in_padding"] += 1
                 continue
             err = float((dec[k] - pts_orig[k].double()).abs().max())
@@ -362,6 +390,11 @@ def execute(plan, choices=None):
         kind, cfg = spec["kind"], spec["cfg"]
         labels = dw.build_labels(scene)
         try:
+            if plan.get("seed", 0) % 2 == 0:
+                # what a direct-API user does for a centered-instance model: size the crop from the labels, then build the dataset
+                # from the SAME labels object (helpers must not have touched it)
+                find_instance_crop_size(labels, maximum_stride=max(cfg["max_stride"], 2), input_scaling=cfg["scale"])
+                probes["crop_size_helper_called_before_dataset"] = 1
             ds = dw.build_dataset(kind, labels, cfg)
             ref = None
             if spec["aug_kind"] == "intensity":
